@@ -35,7 +35,8 @@ def eval_post(I, res, emit, slf, pt, value_of=None, props_value=("C01",), who=""
             emit("returns-number", ["C17"] + list(props_value), z3.BoolVal(False), info=repr(r))
             return
         emit("returns=>D", ["C02", "C07"] if who else ["C02"], d.D)
-        emit("returns=>S", ["C14"], S)
+        if not who:
+            emit("returns=>S", ["C14"], S)      # evaluation never returns a number without the coordinates
         want = d.V if value_of is None else value_of(d)
         emit("value", list(props_value), real_term(r) == want, extra=list(extra))
     else:
